@@ -1605,10 +1605,13 @@ fire("c03-xor-builds-or", ["C03"], PR,
 fire("c03-sum-radd-order", ["C03"], PR,
      "        return Sum((other, *self.children))", "        return Sum((*self.children, other))",
      "E/Sum.__radd__/general")
-fire("c03-product-splice-order", ["C03"], PR,
-     "            return Product(other.children + self.children)",
-     "            return Product(self.children + other.children)",
-     "E/Product.__rmul__/general:splice")
+# (the branch is dead code: __rmul__ returns NotImplemented for anything that
+# is not a constant before it gets there -- the operator judge of round 4
+# showed that the structural rule had been reporting a change no caller can
+# observe; re-filed as a silent variant)
+silent("c03-product-splice-order-in-dead-branch", ["C03"], PR,
+       "            return Product(other.children + self.children)",
+       "            return Product(self.children + other.children)")
 fire("c03-lt-returns-comparison", ["C03"], PR,
      "    def __lt__(self, other) -> NoReturn:\n"
      "        raise TypeError(\"expressions don't have an order\")",
